@@ -345,6 +345,54 @@ def r6_orientation_and_table(chk, f):
 
     loop = _loop(f)
     asg = assignments(f.node)
+    # (c) the constant fallback direction (atom without neighbours) must not be parallel to the constant auxiliary axis it is
+    #     crossed with in the two-hydrogen branch: a zero cross product is normalised to NaN positions
+    prog = chk.prog
+    consts = []
+    local_imports = {}
+    for s_ in walk_no_nested(f.node):
+        if isinstance(s_, ast.ImportFrom) and s_.module:
+            for a_ in s_.names:
+                local_imports[a_.asname or a_.name] = (s_.module if not s_.level else f.module._abs(s_.level, s_.module), a_.name)
+
+    def cev(e):
+        """constant value of e: literal / module constant / constant imported inside the function; `.copy()`, `np.array(..)` and a constant index are seen through"""
+        if isinstance(e, ast.Call) and isinstance(e.func, ast.Attribute) and e.func.attr == "copy" and not e.args:
+            return cev(e.func.value)
+        if isinstance(e, ast.Subscript) and isinstance(e.slice, ast.Constant) and isinstance(e.slice.value, int):
+            base = cev(e.value)
+            return base[e.slice.value]
+        if isinstance(e, ast.Name) and e.id in local_imports:
+            mod, nm = local_imports[e.id]
+            m_ = prog.modules.get(mod)
+            if m_ is not None:
+                return prog.const_eval(m_, ast.Name(nm, ast.Load()))
+        return prog.const_eval(f.module, e)
+
+    for v in asg.get("vec", []):
+        if isinstance(v, ast.AST):
+            try:
+                c_ = cev(v)
+            except (AnalysisError, TypeError, IndexError, KeyError):
+                continue
+            if isinstance(c_, (list, tuple)) and len(c_) == 3 and all(isinstance(x, (int, float)) for x in c_):
+                consts.append((tuple(float(x) for x in c_), v))
+    aux = []
+    for c_ in walk_no_nested(loop):
+        if isinstance(c_, ast.Call) and call_name(c_) in ("np.cross", "numpy.cross") and len(c_.args) == 2 and norm(c_.args[0]) == "vec":
+            try:
+                a_ = prog.const_eval(f.module, c_.args[1])
+            except AnalysisError:
+                continue
+            if isinstance(a_, (list, tuple)) and len(a_) == 3:
+                aux.append((tuple(float(x) for x in a_), c_))
+    for (fv, fnode) in consts:
+        for (av, anode) in aux:
+            cx = (fv[1] * av[2] - fv[2] * av[1], fv[2] * av[0] - fv[0] * av[2], fv[0] * av[1] - fv[1] * av[0])
+            chk.decide(any(abs(x) > 1e-9 for x in cx), "C16.R6", f"{f.key}:fallback-direction-not-parallel-to-auxiliary-axis", f.where(fnode),
+                       f"fallback direction {fv} x auxiliary axis {av} = {cx} != 0",
+                       f"the fallback direction {fv} of an atom without neighbours is parallel to the auxiliary axis {av} used by `{short(anode, 40)}`: their cross product is zero, "
+                       "its normalisation divides by zero and an isolated atom that gets two hydrogens (bare O, S) gets them at NaN positions")
     flips = [s for s in walk_no_nested(loop) if isinstance(s, ast.AugAssign) and isinstance(s.op, ast.Mult) and norm(s.target) == "vec"]
     key = f"{f.key}:normal-oriented-for-both-signs"
     if not flips:
